@@ -181,6 +181,7 @@ pub struct UProfile {
 pub fn uprofile_for(prop: &str) -> UProfile {
     match prop {
         "C12" => UProfile { prop: "C12", actions: 100, w_close: 5, w_abandon: 6, w_advance: 4, timeouts: true },
+        "C11" => UProfile { prop: "C11", actions: 100, w_close: 3, w_abandon: 8, w_advance: 4, timeouts: true },
         "C10" => UProfile { prop: "C10", actions: 80, w_close: 1, w_abandon: 3, w_advance: 20, timeouts: true },
         _ => UProfile { prop: "C05", actions: 140, w_close: 0, w_abandon: 8, w_advance: 4, timeouts: true },
     }
@@ -349,7 +350,7 @@ impl UDirector {
                                     }
                                 } else {
                                     match eff {
-                                        Some(d) if runtime && now >= started + d => {}
+                                        Some(d) if runtime && started.checked_add(d).map(|dl| now >= dl).unwrap_or(false) => {}
                                         _ => w.viol(&["C10"], "timeout_early", format!("t{} {:?} returned Timeout before its deadline {:?}", t, kind, eff)),
                                     }
                                 }
@@ -638,11 +639,11 @@ impl UDirector {
         let mut w = self.world();
         let big = 1usize << 32;
         if st.size >= big || st.available >= big || st.waiting >= big {
-            w.viol(&["C05", "C12"], "status_wrapped", format!("status() reports a wrapped counter: {:?}", st));
+            w.viol(&["C05", "C12", "C11"], "status_wrapped", format!("status() reports a wrapped counter: {:?}", st));
         } else if quiescent && !w.stop() {
             // at rest: no runnable task; blocked tasks are genuinely blocked
             if st.size != in_pool + held || st.available != in_pool || st.waiting != getters || st.max_size != w.max_size {
-                let props: &[&'static str] = if w.closed { &["C12"] } else { &["C05"] };
+                let props: &[&'static str] = if w.closed { &["C12", "C11"] } else { &["C05", "C11"] };
                 let m = w.max_size;
                 w.viol(
                     props,
@@ -692,7 +693,11 @@ pub fn run_history(rt: &tokio::runtime::Runtime, p: &UProfile, seed: u64, idx: u
     let max_size = rng.usize_below(5);
     let runtime = p.timeouts && rng.chance(1, 2);
     let cfg_timeout = if runtime && rng.chance(1, 2) {
-        Some(Duration::from_millis(rng.range(0, 30) * 10))
+        if rng.chance(1, 12) {
+            Some(Duration::MAX)
+        } else {
+            Some(Duration::from_millis(rng.range(0, 30) * 10))
+        }
     } else if rng.chance(1, 8) {
         Some(Duration::ZERO)
     } else {
@@ -772,7 +777,13 @@ pub fn run_history(rt: &tokio::runtime::Runtime, p: &UProfile, seed: u64, idx: u
                 p.w_close,
                 if !live.is_empty() { 1 } else { 0 },
             ];
-            let dur = |rng: &mut Rng| Duration::from_millis(rng.range(1, 30) * 10);
+            // mostly ordinary durations; now and then one that cannot be added to an Instant
+            let dur = |rng: &mut Rng| match rng.below(16) {
+                0 => Duration::MAX,
+                1 => Duration::from_secs(u64::MAX / 4),
+                2 => Duration::from_nanos(1),
+                _ => Duration::from_millis(rng.range(1, 30) * 10),
+            };
             match rng.weighted(&weights) {
                 0 => {
                     let t = match rng.below(4) {
